@@ -56,6 +56,8 @@ def _vacuity_proj(path):
                         seen.add("owner255:" + sec)
                     if len(c["in"]["m"]) > 256 and it[0][:1] == [[102, 116, 112]] and len(it[0]) >= 3:
                         seen.add("farpointer")
+                    if it[1] == 48 and it[5] == 6:
+                        seen.add("dnskey:keylen2")
                     if it[1] in (47, 50, 64, 65, 16, 45, 250):
                         seen.add("typed:%d" % it[1])
                     for o in it[6]["opts"]:
@@ -72,7 +74,7 @@ def _vacuity_proj(path):
             "items:an", "items:ns", "items:ar", "rd:names:True", "rd:names:False",
             "rd:opt:True", "rd:opt:False", "rd:fixed:True", "rd:fixed:False", "rd:raw:True",
             "rd:opaque:True", "itererr", "qname255", "owner255:an", "owner255:ns", "owner255:ar",
-            "farpointer", "typed:47", "typed:50", "typed:64", "typed:65", "option:8", "option:10", "option:11", "option:15", "typed:16", "typed:45", "typed:250", "dev:D_cname_ancount_overflow",
+            "farpointer", "dnskey:keylen2", "typed:47", "typed:50", "typed:64", "typed:65", "option:8", "option:10", "option:11", "option:15", "typed:16", "typed:45", "typed:250", "dev:D_cname_ancount_overflow",
             "dev:D_xfr_unreachable_qtype", "dev:D_slice_iter"}
     missing = sorted(need - seen)
     if missing:
